@@ -109,6 +109,7 @@ def anneal[T](
     best_solution, best_obj = solution, obj
     initial_temp = temperature
 
+    iteration = 0  # max_iter == 0: the loop body never runs
     for iteration in range(1, max_iter + 1):
         temperature = schedule(initial_temp, iteration, max_iter)
 
